@@ -2,7 +2,7 @@
     ONLY statements pinned here; proofs live in Dashu.Int.ModRing*. *)
 From Dashu Require Import Base.Prelude Base.Words Int.ModRingSpec Int.ModRingSpecProofs
   Int.ModRingPowModel Int.ModRingPowProofs Int.ModRingModel Int.ModRingProofs Int.ModRingOpsProofs
-  Int.ModRingMain Int.ModRingInst Int.ModRingInstProofs.
+  Int.ModRingMain Int.ModRingExpr Int.ModRingInst Int.ModRingInstProofs.
 Open Scope Z_scope.
 
 (** ---------------- what the statement demands of the specification ---------------- *)
@@ -152,6 +152,28 @@ Theorem C13_asis_reducer : forall w f2 f3 finv fgcd, 2 <= w -> externals_ok w f2
     end.
 Proof. exact asis_reducer. Qed.
 Print Assumptions C13_asis_reducer.
+
+(** ---------------- whole expressions (all finite histories of operations on one ring) ---------------- *)
+Theorem C13_expr_spec_homomorphism : forall m e, 0 < m -> div_free e -> exps_ok e -> eval_spec m e = Ok (evalZ e mod m).
+Proof. exact eval_spec_hom. Qed.
+Print Assumptions C13_expr_spec_homomorphism.
+
+Theorem C13_expr_asis : forall w f2 f3 finv fgcd, 2 <= w -> externals_ok w f2 f3 finv fgcd ->
+  forall r e, ring_wf w r -> exps_ok e ->
+  match eval_spec (r_m r) e with
+  | Ok q => exists c, eval_asis w f2 f3 finv fgcd r e = Ok c /\ rep r q c
+  | Panic p => eval_asis w f2 f3 finv fgcd r e = Panic p
+  | _ => False
+  end.
+Proof. exact eval_asis_ok. Qed.
+Print Assumptions C13_expr_asis.
+
+Theorem C13_expr_homomorphism : forall w f2 f3 finv fgcd, 2 <= w -> externals_ok w f2 f3 finv fgcd ->
+  forall r e, ring_wf w r -> div_free e -> exps_ok e ->
+  exists c, eval_asis w f2 f3 finv fgcd r e = Ok c /\ residue_asis c = Ok (evalZ e mod r_m r) /\
+            0 <= evalZ e mod r_m r < r_m r.
+Proof. exact expr_homomorphism. Qed.
+Print Assumptions C13_expr_homomorphism.
 
 (** ---------------- the extracted 64-bit model the oracle runs = the specification, all inputs ---------------- *)
 Theorem C13_run_reduce : forall m a, 1 <= m -> run_reduce m a = Ok (reduce_spec m a, m).
